@@ -143,6 +143,11 @@ class SymX:
             if g.startswith("ConstantGate"):
                 for i, k in enumerate(row["k"]):
                     self.const[w[i]] = k
+        for cl, v in self.ir.get("extra_constants", []):
+            # spare constant slots of other gates (wire == constant), same semantics as a ConstantGate wire
+            if cl in self.const and self.const[cl] != v:
+                self.asserts.append(z3.BoolVal(False))
+            self.const[cl] = v
         usecount = {}
         for r, row in enumerate(self.rows):
             for c in row["w"]:
